@@ -42,14 +42,29 @@ type PtrErr struct{ Msg string }
 // Error implements error.
 func (e *PtrErr) Error() string { return e.Msg }
 
-// OrigRan counts executions of the original bodies.
-var OrigRan [256]int64
+// OrigRan counts executions of the original bodies, per caller slot: calls of one function made
+// by different simulated tasks may overlap (a task can be parked inside goom's debug wrapper), and
+// each task compares the counter before and after its own call.
+var OrigRan [256][34]int64
+
+// SlotFn identifies the caller (the simulator's current task, -1 outside a run); nil: one slot.
+var SlotFn func() int
+
+func slot() int {
+	if SlotFn == nil {
+		return 0
+	}
+	if k := SlotFn() + 1; k >= 0 && k < len(OrigRan[0]) {
+		return k
+	}
+	return 0
+}
 
 // Ran bumps the counter of function k.
-func Ran(k int) { atomic.AddInt64(&OrigRan[k], 1) }
+func Ran(k int) { atomic.AddInt64(&OrigRan[k][slot()], 1) }
 
-// RanCount reads the counter of function k.
-func RanCount(k int) int64 { return atomic.LoadInt64(&OrigRan[k]) }
+// RanCount reads the calling task's counter of function k.
+func RanCount(k int) int64 { return atomic.LoadInt64(&OrigRan[k][slot()]) }
 
 // As converts an interface value to T, mapping a nil interface to T's zero value.
 func As[T any](v interface{}) T {
